@@ -1,0 +1,23 @@
+//go:build !verif
+// +build !verif
+
+package ed25519
+
+import "io"
+
+func verifBatchEvent(call io.Reader, ev, a, b int) {}
+
+func verifHeapEvent(hp *batchHeap, phase int, max1, max2 heapIndex, limbSize int, extended bool) {}
+
+func verifBool(b bool) int { return 0 }
+
+const (
+	verifEvChunkBegin  = 1
+	verifEvFailBatch   = 2
+	verifEvMarked      = 3
+	verifEvEquation    = 4
+	verifEvFallback    = 5
+	verifEvFallbackOne = 6
+	verifEvChunkEnd    = 7
+	verifEvRemainder   = 8
+)
